@@ -3,6 +3,7 @@ from __future__ import annotations
 
 import enum
 import itertools
+import json
 import typing
 
 from specmc import gen, pyval
@@ -114,6 +115,20 @@ def cases(tier):
             for typed in (False, True):
                 yield {"labels": [f"const={c!r}", "req" if req else "opt"] + (["typed"] if typed else []),
                        "payload": {"mode": "const", "const": c, "required": req, "typed": typed}}
+    # enums / consts where an OPERATION uses them: as JSON response (next to a content-less sibling response) and as query / header parameter
+    for typ, values in (("string", ["a", "b"]), ("integer", [-1, 0, 2]), ("string", [""]), ("const", ["k"]), ("const", [3])):
+        for style in ("enum", "literal"):
+            if typ == "const" and style == "literal":
+                continue
+            for ref in (False, True):
+                for sibling in ("none", "204", "404-empty", "default"):
+                    yield {"labels": [f"values={values!r}", f"type={typ}", f"style={style}", "as-response", f"sibling={sibling}"] + (["ref"] if ref else []),
+                           "payload": {"mode": "enum-response", "type": typ, "values": values, "style": style, "ref": ref, "sibling": sibling}}
+                if typ != "const":
+                    for loc in ("query", "header"):
+                        for req in (True, False):
+                            yield {"labels": [f"values={values!r}", f"type={typ}", f"style={style}", f"as-{loc}-parameter"] + (["ref"] if ref else []) + ([] if req else ["opt"]),
+                                   "payload": {"mode": "enum-param", "type": typ, "values": values, "style": style, "ref": ref, "loc": loc, "required": req}}
     # a const as one member of a union: the property admits the constant and what the other member admits, nothing else
     for c in ("k", 3, True):
         for partner in PARTNERS:
@@ -344,6 +359,119 @@ def _run_const_union(p):
     return {"violations": uniq, "outcome": "ok" if not uniq else "viol:" + ",".join(sorted({v['oracle'] for v in uniq})), "nontrivial": True, "steps": 16}
 
 
+def _op_enum_schema(p, comps):
+    sch = {"const": p["values"][0]} if p["type"] == "const" else {"type": p["type"], "enum": list(p["values"])}
+    if p["ref"]:
+        comps["E"] = sch
+        return {"$ref": "#/components/schemas/E"}
+    return sch
+
+
+def _run_enum_response(p):
+    import httpx
+    from specmc import wire
+    comps = {}
+    sch = _op_enum_schema(p, comps)
+    responses = {"200": {"description": "d", "content": {"application/json": {"schema": sch}}}}
+    if p["sibling"] == "204":
+        responses["204"] = {"description": "nothing"}
+    elif p["sibling"] == "404-empty":
+        responses["404"] = {"description": "not found"}
+    elif p["sibling"] == "default":
+        responses["default"] = {"description": "anything else"}
+    doc = gen.base_doc(comps or None, paths={"/e": {"get": {"operationId": "getE", "responses": responses}}})
+    res = gen.generate(doc, literal_enums=p["style"] == "literal")
+    if res.crash:
+        return {"skipped_crash": True, "outcome": f"crash:{res.crash['type']}@{res.crash['where']}", "nontrivial": False}
+    if res.rejected or not res.endpoints:
+        return {"outcome": "no-endpoint", "nontrivial": False}
+    key = f"response/{p['type']}/{p['style']}" + ("/ref" if p["ref"] else "")
+    viol = []
+    values = p["values"]
+    with Sandbox(res.pkg_tree()) as sb:
+        try:
+            mod = wire.endpoint_module(sb, res.endpoints[0])
+        except Exception as exc:  # noqa: BLE001
+            return {"outcome": f"import-fails:{type(exc).__name__}", "nontrivial": False}
+        current = {}
+        cap = wire.Capture(lambda request: httpx.Response(200, json=current["v"]))
+        for v in values:
+            current["v"] = v
+            for variant in ("sync_detailed", "asyncio_detailed"):
+                r = wire.call(mod, variant, lambda: wire.make_client(sb, cap), cap, {})
+                if not r["ok"]:
+                    viol.append({"oracle": "listed-rejected", "site": "response", "key": f"{key}/{vclass(v)}", "detail": f"{variant}: listed value {v!r} as reply raised {r['exc']!r}"})
+                    continue
+                parsed = r["value"].parsed
+                wire_v = parsed.value if isinstance(parsed, enum.Enum) else parsed
+                if type(wire_v) is not type(v) or wire_v != v:
+                    viol.append({"oracle": "listed-roundtrip", "site": "response", "key": f"{key}/{vclass(v)}", "detail": f"{variant}: listed value {v!r} as reply parsed to {parsed!r}"})
+                elif p["style"] == "enum" and p["type"] != "const" and not isinstance(parsed, enum.Enum):
+                    viol.append({"oracle": "listed-not-member", "site": "response", "key": f"{key}/{vclass(v)}", "detail": f"{variant}: listed value {v!r} parsed to {parsed!r}, not a member"})
+        probes_ = ["zz-not-listed", 77, None] if p["type"] != "integer" else [77, "a", None]
+        for x in probes_:
+            if any(type(x) is type(v) and x == v for v in values):
+                continue
+            current["v"] = x
+            r = wire.call(mod, "sync_detailed", lambda: wire.make_client(sb, cap), cap, {})
+            if r["ok"]:
+                viol.append({"oracle": "unlisted-accepted", "site": "response", "key": f"{key}/{type(x).__name__}", "detail": f"reply {x!r} is not listed in {values!r} but parsed to {r['value'].parsed!r}"})
+    seen, uniq = set(), []
+    for v in viol:
+        k = (v["oracle"], v["site"], v["key"])
+        if k not in seen:
+            seen.add(k)
+            uniq.append(v)
+    return {"violations": uniq, "outcome": "ok" if not uniq else "viol:" + ",".join(sorted({v['oracle'] for v in uniq})), "nontrivial": True, "steps": 2 * len(values) + 3}
+
+
+def _run_enum_param(p):
+    from specmc import wire
+    comps = {}
+    sch = _op_enum_schema(p, comps)
+    doc = gen.base_doc(comps or None, paths={"/e": {"get": {"operationId": "getE", "parameters": [{"name": "p", "in": p["loc"], "required": p["required"], "schema": sch}],
+                                                          "responses": {"200": {"description": "ok"}}}}})
+    res = gen.generate(doc, literal_enums=p["style"] == "literal")
+    if res.crash:
+        return {"skipped_crash": True, "outcome": f"crash:{res.crash['type']}@{res.crash['where']}", "nontrivial": False}
+    if res.rejected or not res.endpoints:
+        return {"outcome": "no-endpoint", "nontrivial": False}
+    key = f"{p['loc']}-parameter/{p['type']}/{p['style']}" + ("/ref" if p["ref"] else "")
+    viol = []
+    with Sandbox(res.pkg_tree()) as sb:
+        try:
+            mod = wire.endpoint_module(sb, res.endpoints[0])
+        except Exception as exc:  # noqa: BLE001
+            return {"outcome": f"import-fails:{type(exc).__name__}", "nontrivial": False}
+        ep = res.endpoints[0]
+        py = ep[f"{p['loc']}_params"][0]["py"]
+        ann = pyval.hints(mod.sync_detailed).get(py)
+        cap = wire.Capture()
+        for v in p["values"]:
+            try:
+                arg = pyval.pythonize(ann, v)
+            except pyval.NoFit as exc:
+                viol.append({"oracle": "annotation-rejects-listed", "site": p["loc"], "key": f"{key}/{vclass(v)}", "detail": f"listed value {v!r} does not fit {ann!r}: {exc}"})
+                continue
+            for variant in ("sync_detailed", "asyncio_detailed"):
+                r = wire.call(mod, variant, lambda: wire.make_client(sb, cap), cap, {py: arg})
+                if not r["ok"] or not r["requests"]:
+                    viol.append({"oracle": "listed-not-sent", "site": p["loc"], "key": f"{key}/{vclass(v)}", "detail": f"{variant}: passing the listed value {v!r} raised {r.get('exc')!r}"})
+                    continue
+                q = r["requests"][0]
+                got = [x for k_, x in q["query"] if k_ == "p"] if p["loc"] == "query" else [x for k_, x in q["headers"] if k_ == "p"]
+                want = v if isinstance(v, str) else json.dumps(v)
+                if got != [want]:
+                    viol.append({"oracle": "listed-wire-value", "site": p["loc"], "key": f"{key}/{vclass(v)}", "detail": f"{variant}: listed value {v!r} transmitted as {got!r}, expected {[want]!r}"})
+    seen, uniq = set(), []
+    for v in viol:
+        k = (v["oracle"], v["site"], v["key"])
+        if k not in seen:
+            seen.add(k)
+            uniq.append(v)
+    return {"violations": uniq, "outcome": "ok" if not uniq else "viol:" + ",".join(sorted({v['oracle'] for v in uniq})), "nontrivial": True, "steps": 2 * len(p["values"])}
+
+
 def _run_clash(p):
     from checks.c02 import find_class
     x, y = p["x"], p["y"]
@@ -397,4 +525,8 @@ def run_case(p):
         return _run_clash(p)
     if p["mode"] == "const-union":
         return _run_const_union(p)
+    if p["mode"] == "enum-response":
+        return _run_enum_response(p)
+    if p["mode"] == "enum-param":
+        return _run_enum_param(p)
     return _run_enum(p) if p["mode"] == "enum" else _run_const(p)
